@@ -168,6 +168,27 @@ Definition l_conv_accept (n r : Z) (sat : bool) (x : num) (c : Z) : bool :=
       end
   end.
 
+(* ---- lns -> lns (C15): the source value is 2^(E1/2^r1) exactly, so its logarithm is the rational E1/2^r1 and the target exponent is
+   that number rounded to a multiple of 2^-r2 (the library goes through double, so at an exact tie either neighbour is accepted),
+   followed by the target's range rule (strictly inside the range: a tie at the very top may round out of it, where Wrapping is not judged).  num/den = E1 2^r2 / 2^r1 in target units. ---- *)
+Definition l2l_accept (n1 r1 a n2 r2 : Z) (sat : bool) (c : Z) : bool :=
+  match l_decode n1 a with
+  | LNaN => Z.eqb c (l_encode n2 LNaN)
+  | LZero => Z.eqb c (l_encode n2 LZero)
+  | LVal s E1 =>
+      let num := E1 * 2 ^ r2 in let den := 2 ^ r1 in
+      let near (Ec : Z) := Z.leb (Z.abs (2 * (Ec * den - num))) den in
+      let inrange := Z.ltb ((2 * l_emin n2 - 1) * den) (2 * num) && Z.ltb (2 * num) ((2 * l_emax n2 + 1) * den) in
+      match l_decode n2 c with
+      | LNaN => negb sat && negb inrange
+      | LZero => if sat then Z.leb (2 * num) ((2 * l_emin n2 - 1) * den) else negb inrange
+      | LVal sc Ec =>
+          let ok := Bool.eqb sc s && Z.leb (l_emin n2) Ec && Z.leb Ec (l_emax n2) &&
+                    (near Ec || (sat && Z.eqb Ec (l_emax n2) && Z.leb (l_emax n2 * den) num)) in
+          if sat then ok else (if inrange then ok else true)
+      end
+  end.
+
 Definition judge_lns (cfg : list Z) (op : Z) (args res : list Z) : verdict :=
   let n := nth0 cfg 0 in let r := nth0 cfg 1 in let sat := Z.eqb (nth0 cfg 2) 1 in
   let a := nth0 args 0 in let b := nth0 args 1 in let c := nth0 res 0 in
@@ -187,6 +208,8 @@ Definition judge_lns (cfg : list Z) (op : Z) (args res : list Z) : verdict :=
   if Z.eqb op OP_eq then rel (l_eq n a b) else if Z.eqb op OP_ne then rel (l_ne n a b) else
   if Z.eqb op OP_lt then rel (l_lt n a b) else if Z.eqb op OP_le then rel (l_le n a b) else
   if Z.eqb op OP_gt then rel (l_gt n a b) else if Z.eqb op OP_ge then rel (l_ge n a b) else
+  if Z.eqb op OP_conv then     (* lns -> lns: cfg = source cfg (4 entries) ++ target cfg *)
+    mkV (Z.eqb (Z.of_nat (length res)) 1 && l2l_accept n r a (nth0 cfg 4) (nth0 cfg 5) (Z.eqb (nth0 cfg 6) 1) c) [] true else
   if Z.eqb op OP_add then mkV (Z.eqb (Z.of_nat (length res)) 1 && l_add_accept n r sat a b c) [] true else
   if Z.eqb op OP_sub then mkV (Z.eqb (Z.of_nat (length res)) 1 && l_add_accept n r sat a (l_neg n b) c) [] true else
   mkV false [] false.
